@@ -403,9 +403,12 @@ class CPreProcessor:
             if macro.args is None:  # Macro without arguments
                 expansion = macro.value
             else:  # This macro requires arguments
-                token = self.next_token()
+                # The name must be followed by ( as the next token, do not
+                # macro expand while looking for it:
+                token = self.next_token(expand=False)
                 if not token or token.typ != "(":
-                    self.unget_token(token)
+                    if token:
+                        self.unget_token(token)
                     return
                 args = self.gatherargs(macro)
                 expansion = self.substitute_arguments(macro, args)
